@@ -38,7 +38,7 @@ Ltac hist_step :=
   | |- ok_hist_f_from ?s (?o :: ?r) =>
     let s' := eval vm_compute in (fst (step s o)) in
     apply ok_hist_cons;
-    [ cbn [ok_op_f]; try exact I
+    [ cbn [ok_op_f]; try exact I; try (unfold msg_size_ok; lia)
     | replace (fst (step s o)) with s' by (vm_compute; reflexivity) ]
   | |- ok_hist_f_from _ [] => exact I
   end.
